@@ -97,16 +97,83 @@ def graph_correspondence(ctx: Ctx) -> None:
     ctx.sample({"graph_line": lines[0], "model": model[0], "impl": results[seeds[0]][0]})
 
 
+def set_order_witness(rng) -> dict:
+    """A program aimed at places where mypy iterates sets/dicts to build messages: suggestion lists over large
+    namespaces, unions of many items, missing/extra TypedDict keys, missing protocol members, overload variants,
+    several missing arguments, a 3-module import cycle."""
+    fill = "\n".join(f"name_{i:03d}_{rng.randint(0, 99):02d}x = {i}" for i in range(230))
+    attrs = "\n".join(f"    attr_{i:03d}_{rng.randint(0, 99):02d}y: int = {i}" for i in range(130))
+    main = f"""from typing import Literal, Protocol, TypedDict, Union, overload
+import cyc_a
+{fill}
+print(name_100_zzx)
+
+class Big:
+{attrs}
+
+Big().attr_050_zzy
+
+U = Union[int, str, bytes, float, None, list[int], dict[str, int], tuple[int, str]]
+def takes(u: U) -> None: ...
+takes(object())
+
+L = Literal["a", "b", "c", "d", "e", "f", "g"]
+def lit(x: L) -> None: ...
+lit("zz")
+
+class TD(TypedDict):
+    k1: int
+    k2: int
+    k3: int
+    k4: int
+    k5: int
+td: TD = {{"k1": 1, "x1": 1, "x2": 2, "x3": 3}}
+
+class P(Protocol):
+    def m1(self) -> int: ...
+    def m2(self) -> int: ...
+    def m3(self) -> int: ...
+    def m4(self) -> int: ...
+class Impl: ...
+p: P = Impl()
+
+@overload
+def ov(x: int) -> int: ...
+@overload
+def ov(x: str) -> str: ...
+@overload
+def ov(x: bytes) -> bytes: ...
+@overload
+def ov(x: float, y: int) -> float: ...
+def ov(x, y=0): return x
+ov([])
+
+def many(*, a: int, b: int, c: int, d: int, e: int) -> None: ...
+many()
+many(f=1, g=2, h=3)
+reveal_type(cyc_a.fa)
+"""
+    return {"main.py": main,
+            "cyc_a.py": "import cyc_b\ndef fa() -> 'cyc_b.CB': return cyc_b.CB()\nclass CA: x: int = ''\n",
+            "cyc_b.py": "import cyc_c\nclass CB(cyc_c.CC): y: str = 1\n",
+            "cyc_c.py": "import cyc_a\nclass CC:\n    def g(self) -> 'cyc_a.CA': return cyc_a.CA()\n    z: int = None\n"}
+
+
 def hash_seed_search(ctx: Ctx) -> None:
     n = ctx.pick(3, 12)
-    seeds = ["0", "1", "777", "31337"]
+    seeds = ["0", "1", "777", "31337", "5", "99991"]
 
     def one(i):
         rng = random.Random(f"c10hs:{ctx.seed}:{i}")
-        w = B.gen_world(rng, (4, 7))
         base = os.path.join(ctx.tmp, f"hs{i}")
         root = os.path.join(base, "src")
-        B.materialize(w, root, 1_700_000_002)
+        if i == 0:
+            os.makedirs(root)
+            for pth, text in set_order_witness(rng).items():
+                open(os.path.join(root, pth), "w").write(text)
+        else:
+            w = B.gen_world(rng, (4, 7))
+            B.materialize(w, root, 1_700_000_002)
         outs = []
         for hs in seeds:
             cdir = os.path.join(base, f"c{hs}")
@@ -116,10 +183,10 @@ def hash_seed_search(ctx: Ctx) -> None:
                 for fn in fs:
                     rel = os.path.relpath(os.path.join(dp, fn), cdir)
                     top = rel.split(os.sep)[1] if len(rel.split(os.sep)) > 1 else ""
-                    if fn.endswith(".data.ff") and (top.split(".")[0] in B.USER_PREFIXES):
+                    if fn.endswith(".data.ff") and (top.split(".")[0] in B.USER_PREFIXES + ("main", "cyc_a", "cyc_b", "cyc_c")):
                         datas[rel] = open(os.path.join(dp, fn), "rb").read().hex()
             outs.append({"stdout": r.get("stdout"), "status": r.get("status"),
-                         "ifaces": {m: h for m, h in (r.get("ifaces") or {}).items() if m.split(".")[0] in B.USER_PREFIXES}, "data": datas})
+                         "ifaces": {m: h for m, h in (r.get("ifaces") or {}).items() if m.split(".")[0] in B.USER_PREFIXES + ("main", "cyc_a", "cyc_b", "cyc_c")}, "data": datas})
         files = {os.path.relpath(os.path.join(dp, fn), root): open(os.path.join(dp, fn)).read() for dp, _, fs in os.walk(root) for fn in fs}
         shutil.rmtree(base, ignore_errors=True)
         return files, outs
@@ -136,6 +203,25 @@ def hash_seed_search(ctx: Ctx) -> None:
                 break
 
 
+def inline_flag_mix(rng) -> dict:
+    """Acyclic programs whose modules differ in per-module inline flags (build-wide caches must not let one
+    module's flags leak into another's results whatever the processing order)."""
+    files = {"shapes.py": "from typing import Generic, Optional, TypeVar\nT = TypeVar('T')\nclass Box(Generic[T]):\n"
+                          "    def __init__(self, item: Optional[T] = None) -> None:\n        self.item = item\n"
+                          "class Cov(Generic[T]):\n    def get(self) -> T: ...\n"}
+    flags = ["no-strict-optional", "", "", "no-strict-optional", "disallow-any-generics", "no-warn-no-return"]
+    for i in range(rng.randint(3, 4)):
+        fl = rng.choice(flags)
+        head = f"# mypy: {fl}\n" if fl else ""
+        files[f"u{i}.py"] = (head + "from shapes import Box, Cov\nfrom typing import Optional\n"
+                             "def pick(flag: bool, a: Box[None], b: Box[int], c: Cov[None], d: Cov[int]) -> None:\n"
+                             "    reveal_type(a if flag else b)\n    reveal_type(c if flag else d)\n"
+                             "    x: Box[int] = a\n    y: Cov[int] = c\n"
+                             "reveal_type(Box)\nz: int = None\n"
+                             f"def opt(v: Optional[int]) -> int:\n    return v + {i}\n")
+    return files
+
+
 def permutation_search(ctx: Ctx) -> None:
     n = ctx.pick(3, 12)
 
@@ -149,8 +235,15 @@ def permutation_search(ctx: Ctx) -> None:
             m.ignore_missing = False
         base = os.path.join(ctx.tmp, f"pm{i}")
         root = os.path.join(base, "src")
-        files = B.materialize(w, root, 1_700_000_002)
-        pyfiles = [f for f in files if f.endswith(".py") and not f.endswith("__init__.py")]
+        if i % 2 == 0:
+            fmix = inline_flag_mix(rng)
+            os.makedirs(root)
+            for pth, text in fmix.items():
+                open(os.path.join(root, pth), "w").write(text)
+            files = sorted(fmix)
+        else:
+            files = B.materialize(w, root, 1_700_000_002)
+        pyfiles = [f for f in files if f.endswith(".py") and not f.endswith("__init__.py") and f != "shapes.py"]
         perms = list(itertools.permutations(pyfiles))
         rng.shuffle(perms)
         outs = []
@@ -217,7 +310,14 @@ def history_search(ctx: Ctx) -> None:
         for k, w in enumerate(worlds):
             root = os.path.join(base, f"src{k}")
             B.materialize(w, root, 1_700_000_002)
-            jobs.append({"cwd": root, "args": ["--cache-dir", os.path.join(base, f"cc{k}"), "--no-error-summary", "--no-color-output", "--no-incremental", "."]})
+            last = k == len(worlds) - 1
+            # every build reports a missing (misspelled stdlib) import; earlier builds use other options
+            with open(os.path.join(root, "zz_extra.py"), "w") as f:
+                f.write("import tomlib\nimport dist_utils\nimport asyncoi\nfrom typing import Optional\ndef f(x: Optional[int]) -> int:\n    return x\n")
+            extra = [] if last else rng.choice([["--python-version", "3.10"], ["--python-version", "3.14"], ["--platform", "win32"],
+                                                ["--no-strict-optional"], ["--strict"], []])
+            jobs.append({"cwd": root, "args": ["--cache-dir", os.path.join(base, f"cc{k}"), "--no-error-summary", "--no-color-output",
+                                               "--no-incremental"] + extra + ["."]})
         # the build under test is the last one; run it alone in a fresh interpreter too
         spec, outp = os.path.join(base, "jobs.json"), os.path.join(base, "out.json")
         json.dump(jobs, open(spec, "w"))
